@@ -8,6 +8,7 @@ package index
 func init() {
 	vRegister("ix_exact", H_ix_exact)
 	vRegister("ix_skel", H_ix_skel)
+	vRegister("ix_longrun", H_ix_longrun)
 }
 
 // vIxKeys: concrete key sets with the shapes that matter below the index: id 7 = a 257-bit
@@ -96,6 +97,53 @@ func vLenDiverse(kind int) []string {
 		}
 	}
 	return vUniqSorted(ks)
+}
+
+// Long shared runs in front of a 257-bit node: `fan` keys P + distinct byte + "x" with |P| = run.
+// The index is either refused (only beyond the documented 16 KiB key length) or an exact map
+// for its own keys.
+func H_ix_longrun() {
+	run := vParam("run")
+	fan := vParam("fan")
+	p := make([]byte, run)
+	for i := range p {
+		p[i] = 'a'
+	}
+	P := string(p)
+	var keys []string
+	for i := 0; i < fan; i++ {
+		keys = append(keys, P+string([]byte{byte(0x08 + i*0x0f)})+"x")
+	}
+	n := len(keys)
+	offs := make([]int64, n)
+	recs := make([]string, n)
+	items := make([]OffsetIndexItem, n)
+	for i := range keys {
+		offs[i] = int64(i) * 512
+		recs[i] = string([]byte{'r', byte('a' + i)})
+		items[i] = OffsetIndexItem{Key: keys[i], Offset: offs[i]}
+	}
+	dr := &vRecReader{keys: keys, offs: offs, recs: recs}
+	si, err := NewSlimIndex(items, dr)
+	if err != nil {
+		vAssert(run > 16384, "C12.within-limits-accepted")
+		vReach("end")
+		return
+	}
+	okAll := true
+	for i := range keys {
+		rec, found := si.Get(keys[i])
+		okAll = vAnd(okAll, found && rec == recs[i])
+		rec, found = si.RangeGet(keys[i])
+		okAll = vAnd(okAll, found && rec == recs[i])
+	}
+	vAssert(okAll, "C12.indexed-found")
+	// a query that differs from a key in its last byte only is not found
+	q := P + string([]byte{0x08}) + vString("q", 1)
+	_, found := si.Get(q)
+	vAssert(found == vStrEq(q, keys[0]), "C12.found-iff-indexed")
+	vObserve("found", found)
+	vReach("end")
 }
 
 // L3 for the index: concrete key set, offsets in blocks of `bs` keys (bs = 1: one offset per
